@@ -9,12 +9,12 @@ from .core import Broken
 REPLICAS2 = ["A", "B"]
 
 
-def mc_cfg(c, name, replicas, nbug, maxcommit, rankdir, restart, invariants, props=True):
+def mc_cfg(c, name, replicas, nbug, maxcommit, rankdir, restart, invariants, props=True, loaderless=False):
     d = c.specdir()
     with open(os.path.join(d, name), "w") as f:
         f.write("SPECIFICATION Spec\nCONSTANTS\n  Replica = {%s}\n  NBug = %d\n  Author = {u1, u2}\n  MaxHop = 1000\n"
-                "  MaxCommit = %d\n  RankDir = %d\n  WithRestart = %s\nINVARIANTS %s\n%sCHECK_DEADLOCK FALSE\n" % (
-                    ", ".join(replicas), nbug, maxcommit, rankdir, "TRUE" if restart else "FALSE",
+                "  MaxCommit = %d\n  RankDir = %d\n  WithRestart = %s\n  LoaderLess = %s\nINVARIANTS %s\n%sCHECK_DEADLOCK FALSE\n" % (
+                    ", ".join(replicas), nbug, maxcommit, rankdir, "TRUE" if restart else "FALSE", "TRUE" if loaderless else "FALSE",
                     " ".join(invariants), "PROPERTY ActionProps\n" if props else ""))
     return name
 
@@ -22,7 +22,7 @@ def mc_cfg(c, name, replicas, nbug, maxcommit, rankdir, restart, invariants, pro
 ALL_INV = ["AllReadable", "CausalOrder", "NoDupOps", "Converged", "MergeTruthful", "ClockDominates", "QuiescentConverged"]
 
 
-def exhaustive(c, invariants, restart=False):
+def exhaustive(c, invariants, restart=False, loaderless=False):
     """Bounded exhaustive runs; returns nothing, raises Broken on a model-level error."""
     if c.tier == "quick":
         runs = [(["A", "B"], 1, 5, 1)]
@@ -31,7 +31,7 @@ def exhaustive(c, invariants, restart=False):
     for i, (reps, nbug, maxc, rd) in enumerate(runs):
         if restart:
             maxc -= 1
-        cfg = mc_cfg(c, "MC_GitBug_run%d.cfg" % i, reps, nbug, maxc, rd, restart, invariants)
+        cfg = mc_cfg(c, "MC_GitBug_run%d.cfg" % i, reps, nbug, maxc, rd, restart, invariants, loaderless=loaderless)
         c.tlc_model("MC_GitBug", cfg, timeout=3000,
                     label="%d replicas, %d bug(s), <=%d commits, rankdir %d, restart=%s" % (len(reps), nbug, maxc, rd, restart))
 
